@@ -710,6 +710,58 @@ def check_lazy_agreement_symmetric(repo, rep, rule='R05f'):
            construct=model.norm(cmp_nodes[0]) if cmp_nodes else '')
 
 
+def _pairing_by_evaluation(repo, mod, fi):
+    """_is_specialization_of applied abstractly to two mappings of one call
+    f(x, k1=.., k2=.., k3=..) whose keyword parameters are listed in
+    different orders: every type comparison it makes must be between the
+    two parameters bound to the SAME keyword (and the same position).  None
+    when the function is outside the evaluator's fragment."""
+    import itertools
+    from sa import absint
+    from sa import delegmodel
+    make = delegmodel.mapping_shape(repo)[0]
+    keys = ('k1', 'k2', 'k3')
+    for answer in (False, True):
+        for order2 in itertools.permutations(keys):
+            compared = []
+
+            def param(tag):
+                t = absint.Obj('type:' + tag, tag=tag,
+                               is_specialization_of=absint.Sym(
+                                   'spec#' + tag))
+                return absint.Obj('param:' + tag, value_type=t, name=tag,
+                                  alias=None)
+
+            def oracle(callee, args, kwargs):
+                if callee.startswith('spec#') and args and isinstance(
+                        args[0], absint.Obj) and 'tag' in args[0].attrs:
+                    compared.append((callee[5:], args[0].attrs['tag']))
+                    return (answer and callee.startswith('spec#1'),)
+                return None
+            m1 = make((param('1.pos0'),), {k: param('1.' + k)
+                                           for k in keys})
+            m2 = make((param('2.pos0'),), {k: param('2.' + k)
+                                           for k in order2})
+            it = absint.Interp(repo, mod, oracle)
+            try:
+                it.run(fi.node, {fi.params()[0]: m1, fi.params()[1]: m2})
+            except (absint.Unsupported, RecursionError):
+                return None
+            except absint._Raise as e:
+                return False, 'comparing two mappings of the same call ' \
+                    'raises %s' % e.v
+            for a, b in compared:
+                if a.split('.', 1)[1] != b.split('.', 1)[1]:
+                    return False, 'the parameter bound to `%s` in one ' \
+                        'mapping is compared with the one bound to `%s` ' \
+                        'in the other' % (a.split('.', 1)[1],
+                                          b.split('.', 1)[1])
+            if not any(a.split('.', 1)[1] in keys for a, b in compared):
+                return False, 'the keyword parameters are not compared ' \
+                    'at all'
+    return True, ''
+
+
 def check_keywords_paired_by_name(repo, rep):
     """R05g: when two candidate mappings of one call are compared for
     specificity, the keyword parameters are paired by keyword *name*.  The
@@ -720,6 +772,15 @@ def check_keywords_paired_by_name(repo, rep):
     fi = mod.functions.get('_is_specialization_of')
     if fi is None:
         raise AnalysisError('anchor vanished: runner._is_specialization_of')
+    verdict = _pairing_by_evaluation(repo, mod, fi)
+    if verdict is not None:
+        rep.ob('R05g', fi.key + '/keywords-paired-by-name', verdict[0],
+               'the keyword parameters of the two mappings must be paired '
+               'by keyword name; %s: each mapping lists them in its own '
+               'overload\'s declaration order, so a more specific overload '
+               'is then missed or an unrelated pair decides' % verdict[1],
+               loc=mod.loc(fi.node))
+        return
     # the pairing may live in a helper the two mappings are handed to
     cands = [fi]
     for c in model.calls_in(fi.node):
